@@ -18,6 +18,20 @@ macro "step_inv " h:ident : tactic => `(tactic| (
 /-- split every `if` of the goal and let `simp_all` finish -/
 macro "crush" : tactic => `(tactic| ((repeat' split) <;> simp_all))
 
+/-- three groups of actions, so that a big case analysis (`…_step`) can be elaborated as three declarations -/
+inductive Grp where
+  | s | r | e
+
+/-- `s`: the sender's steps, `open`, `tick`;  `r`: the receiver's start-up steps, `wm`, `brk`, `stop`;
+    `e`: the receiver's clean-up steps, the three shutdown notices (`sNotice`, `rNotice`, `selfEnd`), deliveries and replays -/
+def Act.grp : Act → Grp
+  | .open _ _ | .tick | .sSet _ | .sAdd _ | .sSnap _ | .sLook _ _ | .sSend _ | .sNotifyDone _ | .sClose _
+  | .sUnregCheck _ | .sUnregAgain _ | .sRmChan _ => .s
+  | .rGet _ | .rCancel _ | .rRmCancel _ | .rForceAck _ | .rOpen _ _ | .rSetAck _ | .rSetCancel _ | .rRegActive _
+  | .wm _ | .brk _ | .stop => .r
+  | .rRmAck _ | .rCheck _ | .rRmOwnCancel _ | .rUnregActive _ | .sNotice _ | .rNotice _ | .selfEnd _
+  | .deliverMsg _ | .bcast _ | .deliverAck _ | .replay _ _ => .e
+
 /-- run of a list of actions as a fold; invariants lift from single steps to runs -/
 theorem run_cons (c : Cfg) (σ : State) (a : Act) (l : List Act) :
     run c σ (a :: l) = run c ((step c σ a).getD σ) l := rfl
